@@ -57,6 +57,23 @@ def _sccs(graph):
     return out
 
 
+def _defers(prog, name, seen=None):
+    """does this helper (or a closure / helper it reaches) hand something to the deferral primitive?"""
+    seen = seen or set()
+    if name in seen:
+        return False
+    seen.add(name)
+    b = prog.bodies.get(name)
+    if b is None:
+        return False
+    for (_, _, c) in b.calls():
+        if c.target == "ebr_impl::guard::Guard::defer_unchecked":
+            return True
+        if c.target in prog.auto_inline() and _defers(prog, c.target, seen):
+            return True
+    return False
+
+
 def call_graph(prog):
     """Direct (non-deferred) call edges between local bodies, closures included as callees of the
     function that calls them; closures passed to deferral are NOT edges."""
@@ -76,7 +93,7 @@ def call_graph(prog):
                     s.add(cn)
             # closures handed to a helper introduced by refactoring (not part of the baseline vocabulary, hence not a
             # deferral primitive): assumed to run now
-            if tg in prog.auto_inline():
+            if tg in prog.auto_inline() and not _defers(prog, tg):
                 for cn in c.closure_args():
                     s.add(cn)
         # fn items used as values (`helper(Self::try_destruct)`): may be called by whoever receives them
